@@ -30,7 +30,12 @@ class C13(TreeCheck):
                 if nkill > (3 if tier == "quick" else 20):
                     continue
                 to = {"tree_wait_s": 50, "hard_s": 200}
-            out.append({"program": prog, "config": {}, "meta": meta, "timeouts": to})
+            cfg = {}
+            if not meta["use_exec"] and meta["ending"] in ("os_exit", "killself", "return_live") and rng.random() < 0.6:
+                # the whole tree (tracker included) runs with warnings turned into errors
+                cfg = {"env": {"PYTHONWARNINGS": "error"}}
+                meta["warnings_as_errors"] = True
+            out.append({"program": prog, "config": cfg, "meta": meta, "timeouts": to})
         return out
 
     def derive(self, base, F, rng, tier):
@@ -54,6 +59,18 @@ class C13(TreeCheck):
         ipts = explore.points_of(F, role="driver", thr="user", quals=["SemLock.__init__"])
         for pt in explore.stratified_sample(ipts, 3 if quick else 8, rng, key=lambda p: p["rel"]):
             out.append(({"rules": [explore.rule(pt, ["kill", "SIGKILL"], hit=1)]}, {"mode": "KP", "fn": "SemLock.__init__+%d" % pt["rel"]}))
+        # ... and while it disposes of one (finalizer at drop / gc / interpreter exit)
+        cpts = explore.points_of(F, role="driver", quals=["SemLock._cleanup"])
+        for pt in explore.stratified_sample(cpts, 3 if quick else 8, rng, key=lambda p: (p["rel"], p["thr"])):
+            h = rng.choice(explore.hits_for(pt, rng, which=("first", "last", "random")) or [1])
+            finite = all((o.get("kw") or {}).get("timeout") is not None and (o.get("kw") or {}).get("timeout") <= 1 for o in base["program"]["threads"][0] if o["op"] == "new")
+            plan = {"rules": [explore.rule(pt, ["kill", "SIGKILL"], hit=h)]}
+            if not finite:
+                if base["meta"]["use_exec"]:
+                    continue  # orphaned workers with a long timeout would never end: outside the premise
+            else:
+                plan["_timeouts"] = {"tree_wait_s": 50, "hard_s": 200}
+            out.append((plan, {"mode": "KP", "fn": "SemLock._cleanup+%d" % pt["rel"]}))
         out += explore.derive_Z(rng, 1)
         # observability for finding F8: which thread runs SemLock._cleanup (a mark, no perturbation)
         marks = [explore.rule(pt, ["mark", "semlock_cleanup"], hit=0) for pt in explore.points_of(F, role="driver", quals=["SemLock._cleanup"]) if pt["rel"] <= 3]
